@@ -22,7 +22,7 @@ def resStr : Res → String
   `parse-jll hex`          → `ok w h comps precision` | `err` | `panic` | `beyond`
   `parse-bl hex`           → `err` | `panic` | `beyond`
   `parse-jls hex`, `parse-jlsn hex` → `err` | `panic` | `beyond`
-  `parse-j2k hex`          → `ok xsiz ysiz xosiz yosiz xtsiz ytsiz csiz ncoc nqcc npoc nrgn ncom ntiles datalen | cod… | qcd…` | `err` | `panic` | `beyond`
+  `parse-j2k hex`          → `ok xsiz ysiz xosiz yosiz xtsiz ytsiz csiz ncoc nqcc npoc nrgn ncom nmct nmcc nmco ntiles datalen | cod… | qcd…` | `err` | `panic` | `beyond`
 -/
 def step? : List String → Option String
   | ["jm-readmarker", hx] =>
@@ -57,7 +57,7 @@ def step? : List String → Option String
       match st.siz, st.cod, st.qcd with
       | some s, some c, some q =>
         "ok " ++ sp [s.xsiz, s.ysiz, s.xosiz, s.yosiz, s.xtsiz, s.ytsiz, s.csiz, st.coc.length, st.qcc.length,
-                     st.npoc, st.nrgn, st.ncom, st.tiles.length, (st.tiles.map (·.dataLen)).foldl (· + ·) 0]
+                     st.npoc, st.nrgn, st.ncom, st.nmct, st.nmcc, st.nmco, st.tiles.length, (st.tiles.map (·.dataLen)).foldl (· + ·) 0]
           ++ " | " ++ sp c ++ " | " ++ sp q
       | _, _, _ => "bad-model"
     | (_, r) => resStr r
